@@ -802,6 +802,18 @@ func (g *generator) enterNextFinallyFrame() (canContinue bool) {
 	return
 }
 
+// returnInProgress reports whether a finally block entered by return() is still being executed, i.e. the frame
+// that enterNextFinallyFrame has turned into a marker is still among the generator's try frames.
+func (g *generator) returnInProgress() bool {
+	ts := g.vm.tryStack
+	for i := int(g.tryStackLen); i < len(ts); i++ {
+		if ts[i].catchPos == tryPanicMarker && ts[i].finallyRet == -2 {
+			return true
+		}
+	}
+	return false
+}
+
 func (g *generator) step() (res Value, resultType resultType, ex *Exception) {
 	vm := g.vm
 	if g.returning == nil {
@@ -819,11 +831,7 @@ func (g *generator) step() (res Value, resultType resultType, ex *Exception) {
 		for {
 			ex = vm.runTryInner()
 			if ex != nil {
-				if vm.prg != nil || vm.pc != -2 {
-					// The exception was thrown in the outermost finally block, it never got to leaveFinally
-					// which does popTryFrame()
-					vm.popTryFrame()
-				}
+				g.returning = nil
 				return
 			}
 
@@ -842,6 +850,10 @@ func (g *generator) step() (res Value, resultType resultType, ex *Exception) {
 				vm.callStack = vm.callStack[:len(vm.callStack)-1]
 
 				return
+			}
+			if !g.returnInProgress() {
+				// an exception thrown by the finally block was caught by the body: the return is abandoned
+				g.returning = nil
 			}
 			res = vm.pop()
 			if vm.prg == nil { // It was a return, not a yield
